@@ -10,7 +10,7 @@ PROPS = {
         "pkg": "./c01",
         "stages": [{"name": "main", "timeout_q": 1500, "timeout_t": 7200}],
         "rule": "cases = positions from seeded generators (dense random placements incl. promoted material, sparse endgames, adversarial check/pin/e.p./castling constructions, "
-                "positions reached by MakeMove along biased playouts from a 214-FEN corpus and the same positions reloaded from FEN, exhaustive 3-men classes, strided 4-men classes with e.p.) "
+                "positions reached by ONE played move from generated positions (every double push of pre-double-push constructions, where the e.p. bookkeeping of MakeMove decides), positions reached by MakeMove along biased playouts from a 214-FEN corpus and the same positions reloaded from FEN, every loaded position also parsed with ParseFEN into a board that held another position before, exhaustive 3-men classes, strided 4-men classes with e.p.) "
                 "plus perft comparisons through debug.Perft and the UCI perft command; each case compares the engine's playable-move multiset with the reference legal moves. "
                 "distinct_nontrivial = distinct (placement, side, rights, normalised e.p.) keys among cases with >= 3 pieces and >= 1 legal move. " + VALID,
         "assumptions": [REF],
@@ -70,7 +70,7 @@ PROPS = {
         "pkg": "./c09",
         "stages": [{"name": "main", "timeout_q": 1500, "timeout_t": 7200}],
         "rule": "cases = valid positions with normalised e.p. state, split by in-check / not-in-check: IsCheckmate() (only when in check) and IsStalemate() (only when not in check) vs (reference legal-move count == 0). "
-                "Sources: exhaustive KQK/KRK/KBK/KNK/KPK, strided 4-men classes incl. every valid e.p. target, adversarial constructions (slider/knight/pawn checks with capturers, interposers by piece/push/double push, pins, boxed-in kings, e.p. geometry), "
+                "Sources: exhaustive KQK/KRK/KBK/KNK/KPK, strided 4-men classes incl. every valid e.p. target, adversarial constructions (slider/knight/pawn checks with capturers, interposers by piece/push/double push, pins, boxed-in kings, e.p. geometry, and a dedicated theme for interposition by double push: own pawn at home, third-rank square empty / enemy / own piece / own pawn pinned along the rank, king's neighbourhood blocked), "
                 "dense and sparse random placements, and quiescence-shaped descents (random noisy-move sequences from playout positions, from the ends of PVs reported by real searches, optionally after a null move). "
                 "distinct_nontrivial = distinct keys among positions that are in check or have <= 3 legal moves. " + VALID,
         "assumptions": [REF],
@@ -83,7 +83,7 @@ PROPS = {
         "stages": [{"name": "main", "timeout_q": 1500, "timeout_t": 7200}],
         "rule": "cases = plies of game histories: after every move Board.Threefold() is compared with min(3, number of earlier positions of the history incl. the current one with the same (placement, side, rights, normalised e.p.) key). "
                 "Histories are oscillating shuffles (each side retracts its previous move with probability 0.35-0.95, interleaved with quiet or rich moves: knight/king/rook oscillations, lost castling rights, transient e.p. rights) "
-                "of up to 600 plies and biased playouts, from StartPos(), corpus FENs, generated positions and pre-double-push positions; on a sample the same history goes through the real UCI driver "
+                "of up to 600 plies and biased playouts, from StartPos(), corpus FENs, generated positions, pre-double-push positions and start FENs that carry a RAW, possibly non-capturable e.p. target (identity is by capturability, so such a start position recurs when the same placement returns); forced-push histories make the position after a double push recur; on a sample the same history goes through the real UCI driver "
                 "(`position ... moves ...; go depth 1 nodes 2000`) where bestmove 0000 must appear iff the root is final (third occurrence, clock >= 100 or no legal move). distinct_nontrivial = distinct (start, move list) histories. " + VALID,
         "assumptions": [REF, "position identity is ref.Key(): placement, side to move, castling rights, e.p. capturability"],
         "technique": "runtime monitor: online checker of a history specification (occurrence-count map keyed by reference position identity) along shuffle-biased game histories, plus the UCI path",
@@ -176,7 +176,7 @@ PROPS = {
         ],
         "rule": "cases = operations of seeded histories (8000 ops each) of Insert / LookUp / next-generation / Clear / Resize(+Clear, sometimes without) on a real transp.Table, over pools of 120 keys built to collide "
                 "(same bucket/different signature, same signature/different bucket, same both/different low bits; signatures 0, 0x8000, 0xffff), depths 0..63 with pairs straddling the +2 keep-deeper rule, plies 0..63 at store and probe, scores at 0, +-1, +-(Inf-65..Inf-63), +-Inf and random, "
-                "generations incl. the 255->0 wrap and entries of the previous generation, sizes 32 B (one bucket) .. 1 MiB+32 incl. odd bucket counts, resize up/down. Oracle: executable sequential model keyed by (bucket from the hook, 16-bit signature): every hit must return the modelled depth/bound/move/re-based value, "
+                "generations incl. the 255->0 wrap and entries of the previous generation, sizes 32 B (one bucket) .. 2 MiB+32 incl. odd bucket counts and counts not divisible by 4, key pools biased to the first and last buckets, resize up/down and 'resize down, clear, resize up, clear' dances after which every earlier key must be gone. Oracle: executable sequential model keyed by (bucket from the hook, 16-bit signature): every hit must return the modelled depth/bound/move/re-based value, "
                 "no hit for a never-stored or cleared (bucket, signature != 0), a probe right after a store hits and reflects it except for the keep-deeper rule, a store makes at most one other reachable key unreachable (eviction is learned by probing, the policy is not modelled), every other live key is unchanged by a store. "
                 "After a resize without clear only memory safety is judged. The lane matcher is tested directly (random words with planted key/key+-1/key^0x8000 lanes and an exhaustive pattern family). All of it repeated on checkptr, -asan and -race builds. "
                 "evaluations = operations + matcher cases; distinct_nontrivial = distinct seeded histories.",
@@ -193,8 +193,8 @@ PROPS = {
             {"name": "race", "flags": ["-race"], "timeout_q": 1800, "timeout_t": 10800, "tiers": ["thorough"]},
         ],
         "rule": "cases = real search.Search.Go calls: roots of 11 classes (played-out with history, fresh, in check, <=2 replies, promotion available, clock 96..104, 2nd and 3rd occurrence built by MakeMove, mate, stalemate, dense) x requests "
-                "(depth 1..10, soft nodes, hard nodes, pre-closed stop channel, stop channel closed from another goroutine after 0..2000 us) x table sizes 32 B..16 MiB (tiny tables without Output), several requests per engine so tables are warm, "
-                "plus the ABORT SWEEP: WithNodes(k) for EVERY k in [0,K] (K=400 quick, 5000 thorough) on roots of every class - each k is one possible arrival time of stop / hard timeout; plus the UCI path: `position ...; go <args>` with depth up to 1e6 and unparsable/negative/huge numbers. "
+                "(depth 1..10, soft nodes, hard nodes, pre-closed stop channel, stop channel closed from another goroutine after 0..2000 us) x table sizes 32 B..16 MiB (tiny tables without Output), several requests per engine so tables are warm, half of the engines first search ANOTHER position (state left by a different root: PV buffer, tables, histories), a third of the roots run on a table with PLANTED entries for the root and successor hashes (pseudo-legal-but-illegal moves, arbitrary encodings, mate scores - what a 16-bit signature collision leaves behind), ponder searches that are hit / missed, wall-clock soft limits (legality only), "
+                "plus the ABORT SWEEP: WithNodes(k) for EVERY k in [0,K] (K=400 quick, 5000 thorough) on roots of every class - each k is one possible arrival time of stop / hard timeout - continued sparsely up to 40*K nodes (abort points inside aspiration re-searches and null-move subtrees of later iterations); plus the UCI path: `position ...; go <args>` with depth up to 1e6 and unparsable/negative/huge numbers. "
                 "Oracle per search: returned move is null or in the reference legal moves; null only if the root is final; a completed search on a final root returns null with score 0 / mated; deep board snapshot equal before and after Go; node budget not exceeded; the same engine then answers a fresh position legally; "
                 "the board consistency hook runs at every make/undo inside the search. thorough adds a verif,spsa build with random in-range parameter values and a -race build. distinct_nontrivial = distinct (root, table size) pairs.",
         "assumptions": [REF, "time-based limits are replaced by node budgets (the search polls them at the same points); wall-clock only chooses the moment of an async stop, never a verdict"],
@@ -206,7 +206,7 @@ PROPS = {
         "pkg": "./c07",
         "stages": [{"name": "main", "timeout_q": 1800, "timeout_t": 10800}],
         "rule": "cases = traces of real searches (lines written to Output + return values): the C06 campaign (11 root classes x depth / soft / hard node limits / stop signals / table sizes, several searches per engine, and the abort sweep WithNodes(k) for every k<=K), "
-                "whole games played on ONE engine without Clear (tables warmed by the preceding searches) on 32000-byte (1000 buckets, heavy collisions), 1 MiB and 8 MiB tables, and the real UCI driver with Ponder=true (`info` and `bestmove M ponder P` lines). "
+                "the same warm-up / planted-table / sparse deep abort points as C06, whole games played on ONE engine without Clear (tables warmed by the preceding searches) on 32000-byte (1000 buckets, heavy collisions), 1 MiB and 8 MiB tables, and the real UCI driver with Ponder=true (`info` and `bestmove M ponder P` lines). "
                 "Offline trace checker: every line parses under the info grammar; every pv is a sequence of successively legal moves from the root under the reference model; the returned move is the first move of the most recent NON-EMPTY pv (if none: null or a legal fallback move); "
                 "a non-null ponder move is legal after the returned move; depths strictly increase and node counts never decrease within a search (the abort line included). distinct_nontrivial = distinct (root, table size) pairs + distinct games.",
         "assumptions": [REF],
@@ -272,7 +272,7 @@ PROPS = {
                 "every info line of search k between go_k and bestmove_k (mock infos carry search id + sequence number + CRC over a long variable-length payload: lost, duplicated, reordered, torn or recycled-too-early buffers fail), #readyok == #isready and never ahead of it, uci/uciok, every line in the output grammar, "
                 "Run returns after quit / end of input and no goroutine of the bubble remains. Workload A (testing/synctest virtual time, controllable mock search yielding at every progress point, under -race and plain): (1) systematic sweep: in-search command {none, stop, isready, isready x3, ponderhit, quit, EOF} x every progress point incl. the race with the search returning "
                 "x go form {infinite, movetime, ponder} x follow-up {none, isready, position+go} x output back-pressure (stalled consumer fills the 4-slot output channel); (2) hold scenarios: the interrupt goroutine parked at the tag-guarded scheduling hook after k processed lines while the search finishes, then the GUI stalls its reading, floods isready, queues the next go and releases the goroutine (x40 repetitions: outcome depends on the runtime's random select); "
-                "(3) random schedule explorer: random walks over {send next conforming command from the grammar, permit one mock step, stall/resume consumer, park/release at the hook, advance virtual time, synctest.Wait}. A deadlock is seen logically (all goroutines durably blocked and an answer missing). Workload B (real search, real time, 16 drivers in parallel, -race and plain): random conforming scripts with go nodes/depth/movetime/clock/infinite/ponder, stop / isready floods / ponderhit / quit / EOF after delays of 0..50 ms. "
+                "(3) random schedule explorer: random walks over {send next conforming command from the grammar, permit one mock step, stall/resume consumer, park/release at the hook, advance virtual time, synctest.Wait}. A deadlock is seen logically (all goroutines durably blocked and an answer missing). Workload B (real search, real time, 16 drivers in parallel, -race and plain): random conforming scripts with go nodes/depth/movetime/clock/infinite/ponder (also ponder with node, depth and movetime limits, which must be ignored until ponderhit while stop must still work), stop / isready floods / ponderhit / quit / EOF after delays of 0..50 ms. "
                 "distinct_nontrivial = distinct schedules (action lists) + distinct real-time scripts; coverage also reports the number of distinct observed event-order signatures.",
         "assumptions": ["scripts are protocol-conforming: a new go/position is only sent after the previous bestmove was RECEIVED (the driver drops non-control lines during a search by design)",
                         "in Workload B a missing bestmove after stop / a Run that has not returned 90 s (scaled by VERIF_TIMEOUT_SCALE) after quit is bounded-progress evidence, everything else about time is only a watchdog (inconclusive)"],
